@@ -682,7 +682,8 @@ def _classify(it, backend, got, compact):
     # `ord < MONTHS_OFFSETS[leap][i]`, so the last day of a month in ordinal/week form was rejected by the compiled parser
     if backend == "rs" and form[:3] in ("ord", "wee") and it.get("monthend") == 1 and rejected and it["exp"] != "reject":
         return "rs-ordinal-month-end"
-    # week 00 / weekday 0 are accepted by both backends (mapped to the week before week 1 / the day before Monday)
+    # finding week-zero-accepted (status fixed: a reproduction is a VIOLATION): week 00 / weekday 0 were accepted by both backends
+    # (mapped to the week before week 1 / the day before Monday); only the upper bounds were checked
     if it["exp"] == "reject" and form in ("invalid-week0", "invalid-weekday0") and not rejected:
         return "week-zero-accepted"
     # pure-Python 6-digit basic time without T and with an hour below 10: f"{year!s}" drops the leading zero
@@ -717,7 +718,8 @@ LEVEL_TEXT = ("Machine-checked Coq theorems about executable models of both ISO 
               "Python: the generated regex AST run by a Coq backtracking matcher plus translated integer post-match code): the ordinal-day and ISO-week "
               "conversions of BOTH backends equal the proleptic Gregorian calendar of Spec/Cal.v for every year and every day / week date, month ends "
               "included (the compiled parser's off-by-one on month ends, finding rs-ordinal-month-end, is repaired and its full-strength theorems "
-              "ordinal_rs_spec / week_rs_spec / ordinal_rs_eq_py / week_rs_eq_py are proved), n-digit fields / fractions / offsets parse to their value, and the extended calendar form round-trips; plus a "
+              "ordinal_rs_spec / week_rs_spec / ordinal_rs_eq_py / week_rs_eq_py are proved; a week date is accepted exactly when it exists, week 00 "
+              "and weekday 0 are refused since the repair of finding week-zero-accepted), n-digit fields / fractions / offsets parse to their value, and the extended calendar form round-trips; plus a "
               "three-way correspondence (implementation both backends / model / the value each string was rendered from), exhaustive over all dates "
               "1583..9999 in six forms in the thorough tier.")
 DESIGN_REF = "DESIGN.md section 4 C07"
